@@ -293,7 +293,8 @@ fn text_of(id: &str) -> String {
         for t in tags {
             s.push_str(&format!("  {}:\n    kind: capture\n    tag: {}\n", t, t));
         }
-        s.push_str(&format!("root:\n  level: trace\n  appenders: [{}]\n", tags.join(", ")));
+        // the root is quieter than the probed logger: after a reload the facade's global maximum must follow the logger
+        s.push_str(&format!("root:\n  level: warn\n  appenders: []\nloggers:\n  probe:\n    level: trace\n    appenders: [{}]\n", tags.join(", ")));
         s
     };
     match id {
